@@ -37,6 +37,7 @@ type Engine struct {
 
 type modInfo struct {
 	writes map[string]bool
+	nonFresh map[string]bool
 	cuts   bool
 }
 
